@@ -273,6 +273,50 @@ func checkC17(c *Ctx, r *Report) {
 							div = true
 						}
 					}
+					if !div && selFn == staticCallee(sel) {
+						// the divisibility test may be switched on by a flag parameter that String() passes as a constant
+						// (b.largestUnit(true)): with the edges that contradict the constant arguments removed, and the
+						// "divisible" edges removed as well, the selection must be unreachable
+						var flt []edgeFilter
+						for ai, a := range callArgs(sel) {
+							if ai >= len(selFn.Params) {
+								break
+							}
+							if bv, isC := constBool(a); isC {
+								flt = append(flt, pruneTruth(selFn, selFn.Params[ai], bv))
+							}
+						}
+						divisibleEdge := func(b *ssa.BasicBlock, si int) bool {
+							iff, ok := b.Instrs[len(b.Instrs)-1].(*ssa.If)
+							if !ok {
+								return false
+							}
+							bo, ok := iff.Cond.(*ssa.BinOp)
+							if !ok || (bo.Op != token.EQL && bo.Op != token.NEQ) {
+								return false
+							}
+							rem, ok := unconvNum(bo.X).(*ssa.BinOp)
+							k, isC := constInt(bo.Y)
+							if !ok || rem.Op != token.REM || !isC || k != 0 {
+								return false
+							}
+							if !derivesFrom(rem.X, func(v ssa.Value) bool { return len(selFn.Params) > 0 && v == ssa.Value(selFn.Params[0]) }) {
+								return false
+							}
+							// the edge on which value % unit == 0
+							if bo.Op == token.EQL {
+								return si == 0
+							}
+							return si == 1
+						}
+						if len(flt) > 0 {
+							flt = append(flt, divisibleEdge)
+							reach := walkFrom(pos{selFn.Blocks[0], 0}, nil, func(in ssa.Instruction) bool { return in == last }, orFilter(flt...))
+							if len(reach) == 0 {
+								div = true
+							}
+						}
+					}
 					if !div {
 						okAll = false
 					}
@@ -563,7 +607,34 @@ func checkC17(c *Ctx, r *Report) {
 			})
 		}
 		ovCallers = uniq(ovCallers)
-		okO := len(ovCallers) == 1 && ovCallers[0] == configPkg+".OverrideFromFlags"
+		// a helper that builds the flag handlers (overwriteWith(prop, read)) and is itself used by the flag set-up only
+		flagOnly := func(name string) bool {
+			if name == configPkg+".OverrideFromFlags" {
+				return true
+			}
+			fs := c.FuncsNamed(name)
+			if len(fs) == 0 {
+				return false
+			}
+			for _, g := range fs {
+				cs := li.Callers[g]
+				if len(cs) == 0 {
+					return false
+				}
+				for _, site := range cs {
+					if site.in.Parent() == nil || fnKey(topFn(site.in.Parent())) != configPkg+".OverrideFromFlags" {
+						return false
+					}
+				}
+			}
+			return true
+		}
+		okO := len(ovCallers) >= 1
+		for _, oc := range ovCallers {
+			if !flagOnly(oc) {
+				okO = false
+			}
+		}
 		r.Check(okO, "C17.R4", "overrides are installed only by the command-line flag handlers", "-", strings.Join(ovCallers, ", "), "ConfigProp.Overwrite is also called from "+strings.Join(ovCallers, ", "))
 	}
 
@@ -965,7 +1036,11 @@ func checkC18(c *Ctx, r *Report) {
 	}
 
 	// ---- R2
-	type need struct{ fn, field string; rel []string; why string }
+	type need struct {
+		fn, field string
+		rel       []string
+		why       string
+	}
 	needs := []need{
 		{"CacheConfig", "LockShards", []string{"<1=true", "<=0=true", ">=1=false", ">0=false"}, "getLock divides by len(locks); make([]RWMutex, n)"},
 		{"CacheConfig", "LockShards", []string{">MAX=true"}, "make([]sync.RWMutex, n) panics (len out of range) / exhausts memory for absurd n"},
@@ -1018,6 +1093,9 @@ func checkC18(c *Ctx, r *Report) {
 				if nd.field == "Type" {
 					if strings.Contains(k, "!=") && strings.HasSuffix(k, "=true") {
 						ok = true
+					}
+					if strings.Contains(k, "Contains(") && strings.HasSuffix(k, "=false") {
+						ok = true // refused when the type is not among the known ones (slices.Contains(known, type))
 					}
 					continue
 				}
@@ -1214,21 +1292,45 @@ func checkC18(c *Ctx, r *Report) {
 	// ---- R4
 	for _, f := range c.FuncsNamed(configPkg + ".setPropsFromMapRecursive") {
 		n := 0
-		eachInstr(f, func(in ssa.Instruction) {
-			call, ok := in.(*ssa.Call)
-			if !ok || !call.Call.IsInvoke() || call.Call.Method.Name() != "UnmarshalJSONStaged" {
-				return
-			}
-			n++
-			fs := factStrsDeep(f, call)
-			okTag := false
-			for k := range fs {
-				if strings.Contains(k, "Lookup(") && strings.Contains(k, `"json"`) && (strings.HasSuffix(k, "!=range#0=false") || strings.Contains(k, "!=") && strings.HasSuffix(k, "=false") || strings.Contains(k, "==") && strings.HasSuffix(k, "=true")) {
-					okTag = true
+		for _, g := range pkgGroup(li, f) {
+			eachInstr(g, func(in ssa.Instruction) {
+				call, ok := in.(*ssa.Call)
+				if !ok || !call.Call.IsInvoke() || call.Call.Method.Name() != "UnmarshalJSONStaged" {
+					return
 				}
-			}
-			r.Check(okTag, "C18.R4", "a property is staged only when its json tag equals the document key", c.InstrPos(call), "UnmarshalJSONStaged on the tag == key edge", "properties are staged without comparing their json tag with the update key: "+strings.Join(keysOf(fs), " ∧ "))
-		})
+				n++
+				fs := factStrsDeep(g, call)
+				// staging may sit in a helper (stageField): what holds at the helper's call sites holds there too
+				if g != f {
+					var common map[string]bool
+					for _, site := range li.Callers[g] {
+						if site.in.Parent() == nil || site.in.Parent() == g {
+							continue
+						}
+						cur := factStrsDeep(site.in.Parent(), site.in)
+						if common == nil {
+							common = cur
+						} else {
+							for k := range common {
+								if !cur[k] {
+									delete(common, k)
+								}
+							}
+						}
+					}
+					for k := range common {
+						fs[k] = true
+					}
+				}
+				okTag := false
+				for k := range fs {
+					if (strings.Contains(k, "Lookup(") || strings.Contains(k, "Get(")) && strings.Contains(k, ".Tag") && strings.Contains(k, `"json"`) && (strings.HasSuffix(k, "!=range#0=false") || strings.Contains(k, "!=") && strings.HasSuffix(k, "=false") || strings.Contains(k, "==") && strings.HasSuffix(k, "=true")) {
+						okTag = true
+					}
+				}
+				r.Check(okTag, "C18.R4", "a property is staged only when its json tag equals the document key", c.InstrPos(call), "UnmarshalJSONStaged on the tag == key edge", "properties are staged without comparing their json tag with the update key: "+strings.Join(keysOf(fs), " ∧ "))
+			})
+		}
 		r.Floor("C18.R4", n, 1, "staging sites")
 	}
 
@@ -1348,6 +1450,17 @@ func checkC18(c *Ctx, r *Report) {
 			case *ssa.MakeInterface:
 				nonNil = true
 			}
+			// a walk that reports (what, found) instead of an error: "found" is its failure
+			if isBoolType(ev.Type()) {
+				if bv, isC := constBool(ev); isC && bv {
+					nonNil = true
+				}
+				for _, fc := range factsAt(w, ret) {
+					if fc.cond == ev && fc.truth {
+						nonNil = true
+					}
+				}
+			}
 			if !nonNil && !isNilConst(ev) {
 				for _, fc := range factsAt(w, ret) {
 					if bo, ok := fc.cond.(*ssa.BinOp); ok && (bo.X == ev && isNilConst(bo.Y) || bo.Y == ev && isNilConst(bo.X)) {
@@ -1389,7 +1502,26 @@ func checkC18(c *Ctx, r *Report) {
 					return
 				}
 				vals := retVals(ret)
-				if isNilConst(vals[len(vals)-1]) && !onlyWhenNil(f, ret, call, true) {
+				if !isNilConst(vals[len(vals)-1]) {
+					return
+				}
+				if tup, isTuple := call.Type().(*types.Tuple); isTuple && isBoolType(tup.At(tup.Len()-1).Type()) {
+					// (what, found): success is reported only where found is known false
+					found := extractOf(call, tup.Len()-1)
+					okF := false
+					if found != nil {
+						for _, fc := range factsAt(f, ret) {
+							if fc.cond == found && !fc.truth {
+								okF = true
+							}
+						}
+					}
+					if !okF {
+						okAll = false
+					}
+					return
+				}
+				if !onlyWhenNil(f, ret, call, true) {
 					okAll = false
 				}
 			})
@@ -1501,6 +1633,34 @@ func checkC19(c *Ctx, r *Report) {
 					}
 					if bt, ok := g.Params[i].Type().Underlying().(*types.Basic); !ok || bt.Info()&types.IsInteger == 0 {
 						continue
+					}
+					// the comparison may sit in a predicate literal inside the helper (slices.IndexFunc(subs, func(s) bool {
+					// return s.id == id })): there the id is a captured variable
+					for _, lit := range g.AnonFuncs {
+						for _, fv := range lit.FreeVars {
+							b := freeVarBinding(fv)
+							if b == nil {
+								continue
+							}
+							fromParam := cellValue(b) == ssa.Value(g.Params[i])
+							if a, isA := resolveVal(b).(*ssa.Alloc); isA && !fromParam {
+								for _, st := range storesTo(a) {
+									if st.Val == ssa.Value(g.Params[i]) {
+										fromParam = true
+									}
+								}
+							}
+							if !fromParam {
+								continue
+							}
+							eachInstr(lit, func(in3 ssa.Instruction) {
+								if bo, ok := in3.(*ssa.BinOp); ok && (bo.Op == token.EQL || bo.Op == token.NEQ) {
+									if usesVal(bo.X, fv) || usesVal(bo.Y, fv) {
+										cmpID = true
+									}
+								}
+							})
+						}
 					}
 					eachInstr(g, func(in2 ssa.Instruction) {
 						if bo, ok := in2.(*ssa.BinOp); ok && (bo.Op == token.EQL || bo.Op == token.NEQ) {
